@@ -1,4 +1,5 @@
 import WV.Proofs.C17_Frame
+import WV.Proofs.C17_Keep
 
 /-!
 C17 helper lemmas, part 11: after STOPPED.  With the Manager in STOPPED and no Connector left in
@@ -112,7 +113,10 @@ theorem quiet_runThunk (t : Thunk) {v : World} (hv : Halted v) : Quiet v (runThu
   | discard c => quiet_rfl
   | mgrLost => exact quiet_connectionLost hv
   | stoppedD => exact quiet_tInput _ _ _ hv
-  | waiter i ok => quiet_rfl
+  | waiter i ok =>
+    obtain ⟨ws, rg, e⟩ := resolveWaiter_same i ok v
+    show Quiet v (resolveWaiter i ok v)
+    rw [e]; quiet_rfl
 
 theorem quiet_runThunks (l : List Thunk) : ∀ v : World, Halted v → Quiet v (runThunks l v) := by
   induction l with
@@ -151,6 +155,10 @@ theorem quiet_drainMsgs (l : List Msg) : ∀ x : World, Halted x → Quiet x (dr
     cases e with
     | none => simp only [andThen]; exact q1.trans (ih u (q1.halted hx))
     | some e => exact q1
+
+theorem quiet_connectAs (nm : Option String) (v : World) : Quiet v (connectAs nm v) := by
+  obtain ⟨ws, wn, q, mo, e, _⟩ := connectAs_same nm v
+  rw [e]; quiet_rfl
 
 /-- no event moves a halted Manager, re-opens anything or sends anything -/
 theorem quiet_step {v : World} (hv : Halted v) (e : Ev) : Quiet v (step v e).1 := by
@@ -193,8 +201,23 @@ theorem quiet_step {v : World} (hv : Halted v) (e : Ev) : Quiet v (step v e).1 :
   | connect =>
     simp only [step]
     split
-    · simp only [connect]; split <;> quiet_rfl
+    · exact quiet_connectAs none v
     · exact Quiet.refl _
+  | ep l name => simp only [step]; split <;> quiet_rfl
+  | econnect k =>
+    simp only [step]
+    split
+    · quiet_rfl
+    · split
+      · quiet_rfl
+      · exact quiet_connectAs none v
+  | elisten k =>
+    simp only [step]
+    split
+    · quiet_rfl
+    · split
+      · exact quiet_connectAs _ v
+      · quiet_rfl
   | term i => simp only [step, ofres]; exact quiet_tInput _ _ _ hv
   | turn =>
     simp only [step, turn]
